@@ -41,6 +41,9 @@ fn key_values() -> gen::VS {
         8 => select(vec!["", "a", "b", "c", "d", "0", "1", "a.b", "a\\.b", "é", "k", "zz", "a.b.c", "a\\.b.c", "a\\.b.d", "a.b.d", "a\\.b.b", "a.d.e", "a.c", "b.0", "b.3", "b.-1", "x\\\\y", "a.0", "nope", "2", "-1"]).prop_map(|s| json!(s)),
         2 => (-2i64..5).prop_map(gen::j),
         1 => Just(Value::Null),
+        // what other path languages would find below these keys (a length, every element, a slice, a position): here
+        // they are absent paths for var, and must be reported by missing exactly as var sees them
+        2 => select(vec!["a.length", "b.length", "length", "a.*", "b.*", "*", "*.b", "a.*.b", "b.0:1", "b.1:", "a.#", "a[0]", "b[0]", "$index", "../a", "a.size", "a.first", "b.last", "a.b.length", "c.length"]).prop_map(|s| json!(s)),
     ]
     .boxed()
 }
